@@ -23,7 +23,9 @@ def decOp (s : String) : Option Op :=
 
 def decRet (s : String) : Option Ret :=
   if s == "ok" then some .ok else if s == "fail" then some .fail else if s == "eof" then some .eof
-  else if s == "readerr" then some .readErr else none
+  else if s == "readerr" then some .readErr
+  else if s == "stanzaerr" then some .stanzaErr
+  else if s == "streamerr" then some .streamErr else none
 
 def decProg (s : String) : Option Prog :=
   match s.splitOn "," with
@@ -72,6 +74,29 @@ def encWritten (ts : List Tok) : String :=
 def encStop : Stop → String
   | .clean => "clean"
   | .error e => e.name
+
+def decPend (s : String) : Option Pend :=
+  match s.splitOn "=" with
+  | [i, sp, lo] => do
+    let i ← unhexF i; let sp ← unhexF sp; let lo ← unhexF lo
+    pure ⟨i, ⟨sp, lo⟩⟩
+  | _ => none
+
+def decPends (s : String) : Option (List Pend) :=
+  if s == "-" then some [] else mapM? decPend (s.splitOn ",")
+
+/-- `servep <ns> <localBare> <jidmap> <pending> <toks> <progs>`; pending = `,`-joined `id=space=loc` (hex) -/
+def handleServeP (args : List String) : Option OutP :=
+  match args with
+  | [ns, lb, jm, pd, toks, progs] => do
+    let ns ← decNs ns
+    let lb ← unhexF (if lb == "-" then "" else lb)
+    let jm ← decJidMap jm
+    let pd ← decPends pd
+    let toks ← decToks toks
+    let progs ← decProgs progs
+    pure (serveP { ns := ns, localBare := lb, jidCanon := jidOracle jm } pd toks progs)
+  | _ => none
 
 def handleServe (args : List String) : Option Out :=
   match args with
